@@ -54,6 +54,31 @@ def GoTime.ISOWeek (t : GoTime) : G (Int × Int) :=
   let r := t.date.toModel.isoWeek
   pure (r.1, (r.2 : Int))
 
+/-- `strings.Count(s, sub)` for a one-character `sub` (other arguments: outside the fragment, counted as 0 occurrences
+is NOT assumed — the translation panics) -/
+def stringsCount (s sub : Str) : Int :=
+  match sub with
+  | [c] => ((s.filter (· == c)).length : Int)
+  | _ => -1
+/-- `strings.Contains(s, sub)` for a one-character `sub` -/
+def stringsContains (s sub : Str) : Bool :=
+  match sub with
+  | [c] => s.contains c
+  | _ => false
+
+/-- `civil.ParseDate(s)` = `time.Parse("2006-01-02", s)`: four, two and two digits separated by `-`, a month 1–12 and a
+day that exists in that month (Go reports "day out of range" otherwise); years 0000–9999 -/
+def civilParseDate (s : Str) : G CivilDate :=
+  match s with
+  | [y1, y2, y3, y4, '-', m1, m2, '-', d1, d2] =>
+    if [y1, y2, y3, y4, m1, m2, d1, d2].all isDigit then
+      let y : Int := digitsVal [y1, y2, y3, y4]
+      let m : Int := digitsVal [m1, m2]
+      let d : Int := digitsVal [d1, d2]
+      if 1 ≤ m ∧ m ≤ 12 ∧ 1 ≤ d ∧ d ≤ daysInInt y m then pure ⟨y, m, d⟩ else throw (.err "parsing time: out of range")
+    else throw (.err "parsing time: cannot parse")
+  | _ => throw (.err "parsing time: cannot parse")
+
 /-- `strings.Split(s, sep)` for a one-character separator -/
 def stringsSplit1 (s : Str) (c : Char) : List Str :=
   let rec go : Str → Str → List Str
